@@ -209,23 +209,36 @@ func runC06(c *fw.Ctx, cs fw.Case) {
 		}
 	case "parallel":
 		// the queries are pure functions of the position: several goroutines asking at once (engines searching
-		// side by side do) must each get the answers they get alone; run on the race build
+		// side by side do) must each get the answers they get alone; run on the race build. The positions are
+		// drawn first and the goroutines released together, so that the very first queries of this worker
+		// process - whatever the package still sets up lazily - are made concurrently.
 		var wg sync.WaitGroup
+		start := make(chan struct{})
+		var ready sync.WaitGroup
 		for g := 0; g < 6; g++ {
 			wg.Add(1)
+			ready.Add(1)
 			go func(g int) {
 				defer wg.Done()
 				r := rand.New(rand.NewSource(fw.Mix(cs.Seed, int64(g)+1000)))
+				ps := make([]ref.Pos, 0, cs.N)
 				for i := 0; i < cs.N; i++ {
 					h := randomHist(r, 60)
 					if i%3 == 1 {
 						h = gen.Hist{Start: gen.TacticOK(r, r.Intn(gen.NumTactics))}
 					}
-					derivedChecks(c, h.Final())
+					ps = append(ps, h.Final())
+				}
+				ready.Done()
+				<-start
+				for _, p := range ps {
+					derivedChecks(c, p)
 					c.Count("parallel_positions", 1)
 				}
 			}(g)
 		}
+		ready.Wait()
+		close(start)
 		wg.Wait()
 	case "derived":
 		r := cs.Rand()
